@@ -34,10 +34,16 @@ CMPOPS = list(A.CMPOPS)
 QUICK_STRIDE = 101       # quick: 1/101 of the two-edge chains
 THOROUGH_STRIDE, THOROUGH_PARTS = 35, 7   # thorough: 7 residues mod 35 = 1/5 of them
 REPLAY_PROCS = 6
-APPLIED = "abcdefghp"     # repairs committed in /repo: the spec's plain Impl (ExprBuild.tla `Applied`); revertible in the model only
-FIX_FLAGS = APPLIED + "qrstuv"   # + proposed repairs the spec knows (Fix* operators), in effect once their finding is "fixed"
+APPLIED = "abcdefghpqrstuv"     # repairs committed in /repo: the spec's plain Impl (ExprBuild.tla `Applied`); revertible in the model only
+FIX_FLAGS = APPLIED   # + proposed repairs the spec knows (Fix* operators), in effect once their finding is "fixed"
 CAUSE_FLAG = {"precedence": "p", "dictcomp-no-space": "a", "dict-unpack-none": "b", "empty-slice-tuple": "c", "int-attribute": "d",
-              "fstring-conversion-dropped": "e", "fstring-format-spec-dropped": "f", "in_subscript-leak": "g", "in_formatted_str-leak": "h"}
+              "fstring-conversion-dropped": "e", "fstring-format-spec-dropped": "f", "in_subscript-leak": "g", "in_formatted_str-leak": "h",
+              "bare-genexp": "r", "bare-yield": "s", "lambda-in-fstring": "t", "fstring-brace-start": "u", "fstring-text-unescaped": "v"}
+
+
+def flag_of(b: dict) -> str:
+    """The repair that closes a defect record (ExprBuild.tla FlagOf)."""
+    return "q" if b["cause"] == "precedence" and b["pos"] == "unpack" else CAUSE_FLAG.get(b["cause"], "-")
 
 
 def fixed_flags(findings: list) -> set:
@@ -59,10 +65,21 @@ class World:
         from _griffe.expressions import Expr, ExprName, get_expression  # noqa: PLC0415
 
         self.Expr, self.ExprName, self.get_expression = Expr, ExprName, get_expression
-        self.mod_now = griffe.visit("m", filepath=Path("m.py"), code=PRELUDE)                                     # annotations evaluated
-        self.mod_postponed = griffe.visit("m", filepath=Path("m.py"), code="from __future__ import annotations\n" + PRELUDE)
-        if self.mod_now.imports_future_annotations or not self.mod_postponed.imports_future_annotations:
-            die("C03: imports_future_annotations does not reflect the module source")
+        # Expressions are stored in a SUBMODULE `pkg.sub` of a package whose `__init__` has the *opposite* evaluation mode:
+        # postponed evaluation is a fact about the module that holds the annotation, not about its package.
+        self.mod_now = self.submodule(PRELUDE, postponed=False)              # annotations evaluated; pkg/__init__ postpones
+        self.mod_postponed = self.submodule(PRELUDE, postponed=True)         # annotations postponed; pkg/__init__ does not
+        for mod, post in ((self.mod_now, False), (self.mod_postponed, True)):
+            if mod.imports_future_annotations != post or mod.package.imports_future_annotations == post or mod.package is mod:
+                die("C03: the package / submodule pair does not have opposite `from __future__ import annotations`")
+
+    def submodule(self, code: str, *, postponed: bool):
+        """Visit `code` as pkg/sub.py below a visited pkg/__init__.py whose future import is the opposite."""
+        future = "from __future__ import annotations\n"
+        pkg = self.griffe.visit("pkg", filepath=Path("pkg/__init__.py"), code="" if postponed else future)
+        sub = self.griffe.visit("sub", filepath=Path("pkg/sub.py"), code=(future if postponed else "") + code, parent=pkg)
+        pkg.set_member("sub", sub)
+        return sub
 
     # -- real Griffe on one expression ------------------------------------------------------------
     def build(self, node, top: str, p0: bool):
@@ -206,8 +223,7 @@ def check_contexts(run: Run, w: World, cases: list, stats: dict):
     get_expression builds for the same node (so that the per-expression verdicts above are verdicts about what is stored)."""
     griffe = w.griffe
     for postponed in (False, True):
-        lines = ["from __future__ import annotations"] if postponed else []
-        lines.append(PRELUDE)
+        lines = [PRELUDE]
         want = []
         for i, case in enumerate(cases):
             src = ast.unparse(A.to_ast(case["tree"]))
@@ -217,7 +233,7 @@ def check_contexts(run: Run, w: World, cases: list, stats: dict):
             want.append((i, src))
         code = "\n".join(lines) + "\n"
         try:
-            mod = griffe.visit("m", filepath=Path("m.py"), code=code)
+            mod = w.submodule(code, postponed=postponed)
         except Exception as exc:  # noqa: BLE001
             run.violation({"clause": "total", "cause": "unmodelled", "parent": "visit", "pos": "", "child": ""}, f"visit raised {exc!r} on a module of stored expressions", {"source": code})
             return
@@ -359,7 +375,7 @@ def main(tier: str, replay: str | None = None):
     pending = []
     regress: dict = {}
     with ProcessPoolExecutor(max_workers=REPLAY_PROCS, mp_context=multiprocessing.get_context("spawn")) as pool, \
-            ThreadPoolExecutor(max_workers=6 if tier == "quick" else 3) as ex:
+            ThreadPoolExecutor(max_workers=8 if tier == "quick" else 4) as ex:
         futs = {ex.submit(tlc.run, "ExprBuild", j.pop("cfg", "ExprBuild_check.cfg"), timeout=1100 if tier == "thorough" else 170, **j): name for name, j in jobs.items()}
         for fut in as_completed(futs):
             name, res = futs[fut], fut.result()
@@ -371,7 +387,7 @@ def main(tier: str, replay: str | None = None):
                 flag = name[-1]
                 tlc.must(res, allow_violations=True)
                 run.add_tlc(res)
-                old = [b for b in (res.trace[-1]["bad"] if res.trace else []) if CAUSE_FLAG.get(b["cause"]) == flag]
+                old = [b for b in (res.trace[-1]["bad"] if res.trace else []) if flag_of(b) == flag]
                 if "OldDefectGone" not in res.violated or not old:
                     die(f"C03: with repair {flag} reverted in the model TLC does not exhibit the old defect any more")
                 regress[flag] = {"chain": "/".join(l["s"] for l in res.trace[-1]["chain"]), "cause": old[0]["cause"]}
